@@ -274,9 +274,10 @@ pub fn prop_with(case: &Case, known_url: bool, known_thr: bool) -> Outcome {
     if !b.editor_errors.is_empty() {
         o.label("editor-refused-an-operation");
     }
-    if !b.labels.iter().any(|l| l == "sign-ok") || b.labels.iter().any(|l| l == "publish-refused") {
+    if !b.labels.iter().any(|l| l == "sign-ok") {
         return o;
     }
+    let published = !b.labels.iter().any(|l| l == "publish-refused");
     let m = &b.model;
     let n_deleg = m.roles.len() - 1;
     let big_deleg = {
@@ -319,6 +320,11 @@ pub fn prop_with(case: &Case, known_url: bool, known_thr: bool) -> Outcome {
     }
     if let Some(d) = check_meta_files(&b, &repo) {
         o.fail(format!("written snapshot/timestamp do not describe the written files: {d}"));
+        return o;
+    }
+    if !published {
+        // publishing stopped at a target the editor would not copy/link (e.g. two roles list one
+        // name with different content); the metadata checks above still apply
         return o;
     }
     let rb = read_back(&b, &repo, known_url);
